@@ -93,6 +93,8 @@ var c14Layouts = []struct {
 	// a layout named "root:<dir>" puts the tree into <dir> below the sandbox
 	{"root:.crs", core.Tree{"util/modsec/extra.conf": c14Markers}, nil},
 	{"root:my crs [v4]", nil, nil},
+	// the tree is in real/, the command is pointed at a symbolic link to it
+	{"root reached through a symbolic link", nil, nil},
 	{"symlink to a file outside the targets, first in rules/", nil, core.Tree{"LICENSE": "Apache\n", "rules/AAA-LICENSE": core.LinkPrefix + "../LICENSE"}},
 	{"crs-setup.conf linked to the example file", nil, core.Tree{"crs-setup.conf": core.LinkPrefix + "crs-setup.conf.example"}},
 	{"dangling symlink and link to a directory", nil, core.Tree{"rules/AAA-dangling": core.LinkPrefix + "nowhere", "AAA-plugins": core.LinkPrefix + "plugins", "plugins/AAA-up": core.LinkPrefix + ".."}},
@@ -295,13 +297,21 @@ func C14(r *core.Run) {
 				if root, ok := strings.CutPrefix(lay.Name, "root:"); ok {
 					sb = filepath.Join(sb, root)
 				}
+				dArg := sb
+				if lay.Name == "root reached through a symbolic link" {
+					dArg = filepath.Join(sb, "link")
+					sb = filepath.Join(sb, "real")
+				}
 				build("4.0.0", "2024").Materialise(sb)
+				if dArg != sb {
+					os.Symlink("real", dArg)
+				}
 				var names []string
 				ok := true
 				for _, s := range hist {
 					names = append(names, s.V+"/"+s.Y)
 					r.Inflight(fmt.Sprint(lay.Name, names))
-					res := core.RunCLI(r.Crs, sb, "", nil, "-d", sb, "chore", "update-copyright", "-v", s.V, "-y", s.Y)
+					res := core.RunCLI(r.Crs, sb, "", nil, "-d", dArg, "chore", "update-copyright", "-v", s.V, "-y", s.Y)
 					o.Runs++
 					if res.Exit != 0 {
 						o.Fails = append(o.Fails, c14Fail{"layout:" + lay.Name, names, fmt.Sprintf("exit %d: %s", res.Exit, tailStr(res.Stderr, 200)), nil})
